@@ -40,6 +40,8 @@ def main():
         ak_log.propagate = False
         ak_log.setLevel(logging.DEBUG)
         ctx.counters["shards_run_with_the_package_loggers_at_DEBUG"] = 1
+    if os.environ.get("VF_SHARD_ODD_ENV"):
+        ctx.counters["shards_run_in_the_environment_of_a_minimal_machine"] = 1
     try:
         if spec.get("replay") is not None:
             mod.replay(ctx, unjson(spec["replay"]))
